@@ -595,9 +595,8 @@ def tour_execs(rng, plan_by_case, phones, cfgs, broken, max_len, variants):
             if len(roots) != 1:
                 raise tlc.ModelError("exported graph of %s has %d states without predecessor" % (cfg, len(roots)))
             ts = dag_tours(edges, roots.pop(), max_len, random.Random(rng.random()))
-            taken = set()
             for ti, t in enumerate(ts):
-                mp = tour_mapping(rng, plan0, pre, taken)
+                mp = tour_mapping(rng, plan0, pre, set())       # (every tour has its own decoder: names may repeat)
                 one = [p for p in phones if len(p) == 1]
                 two = [p for p in phones if len(p) == 2 and not p.startswith("+")]
                 # model phone P (one letter) / QQ (two letters) -> real phones; BAD -> a name the model lacks
